@@ -22,8 +22,8 @@ H = dt.timedelta(hours=1)
 def param_forms(seed):
     """(label, asset factory) : the same kinds of assets with parameters in every accepted form"""
     n1, n2 = A.Node('n1'), A.Node('n2')
-    st = [S0, S0 + 2 * H, S0 + 4 * H]
-    en = [S0 + 2 * H, S0 + 4 * H, S0 + 9 * H]
+    st = [S0 - 12 * H, S0 + 2 * H, S0 + 4 * H]        # (wide enough to cover the grid in every zone used)
+    en = [S0 + 2 * H, S0 + 4 * H, S0 + 24 * H]
     out = []
     out.append(('contract_scalar', lambda: A.SimpleContract('c', n1, price='p1', min_cap=-1., max_cap=2., extra_costs=0.5)))
     out.append(('contract_dict_lists', lambda: A.Contract('c', n1, price='p1', min_cap={'start': list(st), 'end': list(en), 'values': [-1., -2., 0.]},
@@ -38,6 +38,13 @@ def param_forms(seed):
                                                                   max_cap={'start': [pd.Timestamp(x, tz='CET') for x in st], 'end': [pd.Timestamp(x, tz='CET') for x in en],
                                                                            'values': [1., 2., 3.]})))
     out.append(('contract_window_tz', lambda: A.SimpleContract('c', n1, price='p1', min_cap=-1., max_cap=2., start=pd.Timestamp(S0 + H, tz='CET'), end=pd.Timestamp(S0 + 5 * H, tz='CET'))))
+    for zone in ('UTC', 'Europe/London', 'America/New_York'):
+        zl = zone.split('/')[-1]
+        out.append(('contract_window_tz_' + zl, lambda zone=zone: A.SimpleContract('c', n1, price='p1', min_cap=-1., max_cap=2., start=pd.Timestamp(S0 + H, tz=zone),
+                                                                                  end=pd.Timestamp(S0 + 5 * H, tz=zone))))
+        out.append(('contract_dict_tzaware_' + zl, lambda zone=zone: A.SimpleContract('c', n1, price='p1', min_cap=-1.,
+                                                                                     max_cap={'start': [pd.Timestamp(x, tz=zone) for x in st], 'end': [pd.Timestamp(x, tz=zone) for x in en],
+                                                                                              'values': [1., 2., 3.]})))
     out.append(('contract_window_date', lambda: A.SimpleContract('c', n1, price='p1', min_cap=-1., max_cap=2., start=dt.date(2021, 1, 4), end=dt.date(2021, 1, 5))))
     out.append(('contract_cap_column', lambda: A.SimpleContract('c', n1, price='p1', min_cap='p2', max_cap='p3')))
     out.append(('transport_take', lambda: A.ExtendedTransport('t', [n1, n2], min_cap=0., max_cap=2., efficiency=0.5, costs_const=0.1,
@@ -156,6 +163,9 @@ def run(tier, seed):
             chk.cnt['eval_round_trips'] += 1
             try:
                 obj = factory()
+            except Exception as e:
+                raise tlc.MachineryError('factory %s failed: %s' % (label, e))
+            try:
                 if state == 'setup':
                     if zf is not None:
                         name, pf, pr, tg = zf()
@@ -164,6 +174,10 @@ def run(tier, seed):
                         obj = pf.assets[idx]
                     else:
                         setup_digest(obj, zoo.grid(6, tz='CET' if 'tz' in label else None))
+            except Exception as e:
+                chk.cnt['pre_setup_not_possible'] += 1
+                continue
+            try:
                 with quiet():
                     s = eao.serialization.to_json(obj)
             except Exception as e:
@@ -208,9 +222,14 @@ def run(tier, seed):
                 chk.nontrivial((label, state))
     # ---- (3) portfolios with their own time grid
     for z in zoo.ZOO:
-        for tz in (None, 'CET'):
+        for tz in (None, 'CET', 'UTC', 'aware_utc'):
             name, pf, pr, tg = z(seed)
-            tgz = zoo.grid(tg.T, tz=tz) if tg.freq == 'h' else tg
+            if tz == 'aware_utc':      # grid given by zone-aware start / end, no explicit zone
+                if tg.freq != 'h':
+                    continue
+                tgz = A.Timegrid(pd.Timestamp(S0, tz='UTC'), pd.Timestamp(S0 + tg.T * H, tz='UTC'), freq='h')
+            else:
+                tgz = zoo.grid(tg.T, tz=tz) if tg.freq == 'h' else tg
             pf.set_timegrid(tgz)
             sel = dict(check='portfolio_round_trip', portfolio=name, zone=str(tz), kind='LinkedAsset' if name == 'linked' else 'other')
             chk.cnt['eval_portfolio_round_trips'] += 1
